@@ -27,8 +27,9 @@ type Case struct {
 	Len   int    `json:"len"`
 	G     int    `json:"g"`
 	Procs int    `json:"procs"`
-	MissD []int  `json:"miss_d,omitempty"`
-	Seed  uint64 `json:"seed"`
+	MissD   []int  `json:"miss_d,omitempty"`
+	KeepPar []int  `json:"keep_p,omitempty"` // if set: only these parity shards are supplied to ReconstructData
+	Seed    uint64 `json:"seed"`
 }
 
 func xs(s *uint64) uint64 {
@@ -51,8 +52,16 @@ func coef(coder string, d, i, j int) uint16 {
 
 func refParity(c Case, data [][]byte) [][]byte {
 	out := make([][]byte, c.P)
+	keep := map[int]bool{}
+	for _, k := range c.KeepPar {
+		keep[k] = true
+	}
 	for i := range out {
 		out[i] = make([]byte, c.Len)
+		if c.KeepPar != nil && !keep[i] && i > 2 {
+			out[i] = nil // not compared (large parity counts)
+			continue
+		}
 		for j := 0; j < c.D; j++ {
 			f := coef(c.Coder, c.D, i, j)
 			for k := 0; k+1 < c.Len; k += 2 {
@@ -88,6 +97,9 @@ func checkLog(log []rsec16.VerifWrite, nOut, n int) (string, int) {
 	workers := 0
 	for i := 0; i < nOut; i++ {
 		ws := by[i]
+		if len(ws) == 0 && n == 0 {
+			continue // nothing to write
+		}
 		if len(ws) == 0 {
 			return fmt.Sprintf("no write logged for output shard %d before the call returned", i), workers
 		}
@@ -161,7 +173,7 @@ func check(c Case) (string, int) {
 		if !bytes.Equal(par[i], base[i]) {
 			return fmt.Sprintf("parity shard %d with %d goroutines differs from single-goroutine result", i, c.G), workers
 		}
-		if !bytes.Equal(par[i], ref[i]) {
+		if ref[i] != nil && !bytes.Equal(par[i], ref[i]) {
 			return fmt.Sprintf("parity shard %d differs from the reference formula", i), workers
 		}
 	}
@@ -187,6 +199,17 @@ func check(c Case) (string, int) {
 	parCopy := make([][]byte, len(par))
 	for i := range par {
 		parCopy[i] = append([]byte{}, par[i]...)
+	}
+	if c.KeepPar != nil {
+		keep := map[int]bool{}
+		for _, k := range c.KeepPar {
+			keep[k] = true
+		}
+		for i := range par {
+			if !keep[i] {
+				par[i] = nil
+			}
+		}
 	}
 	var err error
 	if p, msg := run.Safe(func() {
@@ -214,7 +237,7 @@ func check(c Case) (string, int) {
 		}
 	}
 	for i := range par {
-		if !bytes.Equal(par[i], parCopy[i]) {
+		if par[i] != nil && !bytes.Equal(par[i], parCopy[i]) {
 			return fmt.Sprintf("ReconstructData modified parity shard %d", i), workers
 		}
 	}
@@ -306,6 +329,89 @@ func checkAPI(c Case) string {
 	return ""
 }
 
+// reconMatrix computes, in the reference field, the reconstruction matrix (k x d) of the PAR2 coder for the given
+// missing data shards and used parity rows: R = M^-1 * ( parity[rows][available] | I ).
+func reconMatrix(d int, missing, rows []int) [][]uint16 {
+	k := len(missing)
+	miss := map[int]bool{}
+	for _, m := range missing {
+		miss[m] = true
+	}
+	var avail []int
+	for j := 0; j < d; j++ {
+		if !miss[j] {
+			avail = append(avail, j)
+		}
+	}
+	// augmented [M | N]
+	w := k + d
+	a := make([][]uint16, k)
+	for i := range a {
+		a[i] = make([]uint16, w)
+		for j, m := range missing {
+			a[i][j] = gf16.FPow(par2c[m], uint64(rows[i]))
+		}
+		for j, av := range avail {
+			a[i][k+j] = gf16.FPow(par2c[av], uint64(rows[i]))
+		}
+		a[i][k+len(avail)+i] = 1
+	}
+	for col := 0; col < k; col++ {
+		p := -1
+		for r := col; r < k; r++ {
+			if a[r][col] != 0 {
+				p = r
+				break
+			}
+		}
+		if p < 0 {
+			return nil
+		}
+		a[col], a[p] = a[p], a[col]
+		inv := gf16.FInv(a[col][col])
+		for j := range a[col] {
+			a[col][j] = gf16.FMul(a[col][j], inv)
+		}
+		for r := 0; r < k; r++ {
+			if r != col && a[r][col] != 0 {
+				f := a[r][col]
+				for j := range a[r] {
+					a[r][j] ^= gf16.FMul(f, a[col][j])
+				}
+			}
+		}
+	}
+	out := make([][]uint16, k)
+	for i := range a {
+		out[i] = a[i][k:]
+	}
+	return out
+}
+
+// findSpecialRows searches parity-row triples whose reconstruction matrix contains the wanted coefficient in the wanted column.
+func findSpecialRows(d int, missing []int, want uint16, col int, limit int) []int {
+	for r2 := 1; r2 < limit; r2++ {
+		for r3 := r2 + 1; r3 < r2+40 && r3 < limit; r3++ {
+			rows := []int{0, r2, r3}
+			if len(missing) == 2 {
+				rows = []int{r2, r3}
+			}
+			m := reconMatrix(d, missing, rows)
+			if m == nil {
+				continue
+			}
+			for i := range m {
+				for j := range m[i] {
+					if m[i][j] == want && (col < 0 || j == col) {
+						return rows
+					}
+				}
+			}
+		}
+	}
+	return nil
+}
+
 func TestCheck(t *testing.T) {
 	cfg := run.Load("C12")
 	rec := run.NewRec(cfg)
@@ -395,14 +501,38 @@ func TestCheck(t *testing.T) {
 			do(c)
 		}
 	}
-	for _, l := range []int{4094, 4096, 4098, 65536} {
-		for _, g := range []int{2, 3, 7, 16, 64, 300} {
+	for _, l := range []int{4094, 4096, 4098, 65536, 100000, 196608, 200000, 262144 + 96} {
+		for _, g := range []int{2, 3, 5, 7, 16, 64, 300} {
 			idx++
 			if !cfg.Mine(idx) {
 				continue
 			}
 			do(Case{Op: "gen", Coder: "vand", D: 3, P: 2, Len: l, G: g, Procs: procs[idx%len(procs)], Seed: uint64(idx)})
 			do(Case{Op: "rec", Coder: "cauchy", D: 4, P: 3, Len: l, G: g, Procs: procs[idx%len(procs)], MissD: []int{1, 3}, Seed: uint64(idx)})
+		}
+	}
+	// reconstruction matrices that contain the coefficients 0 and 1 (fast paths), found by a reference search over parity rows
+	for wi, w := range []struct {
+		want uint16
+		col  int
+	}{{0, 0}, {0, 1}, {1, 0}, {0, -1}} {
+		if !cfg.Mine(5000 + wi) {
+			continue
+		}
+		d, missing := 4, []int{0, 1, 3}
+		if wi == 1 {
+			d, missing = 5, []int{1, 4}
+		}
+		rows := findSpecialRows(d, missing, w.want, w.col, 3000)
+		if rows == nil {
+			rec.Class("special-coefficient-not-found")
+			continue
+		}
+		rec.Class("reconstruction-matrix-with-coefficient-0-or-1")
+		for _, l := range []int{96, 200, 4096, 70000} {
+			for _, g := range []int{2, 3, 8} {
+				do(Case{Op: "rec", Coder: "vand", D: d, P: rows[len(rows)-1] + 1, Len: l, G: g, Procs: procs[(wi+g)%len(procs)], MissD: missing, KeepPar: rows, Seed: uint64(wi*100 + l)})
+			}
 		}
 	}
 	// API level
